@@ -132,7 +132,7 @@ class C07(Prop):
             etab = t["ecomax_params_p" if product == 0 else "ecomax_params_i"]
             mtab = t["mixer_params_p" if product == 0 else "mixer_params_i"]
             ttab = t["thermostat_params"]
-            nth = rng.choice([0, 1, 2, 2])
+            nth = rng.choice([0, 1, 2, 2, 3])
             ops = []
             for _ in range(rng.randrange(1, 6)):
                 k = rng.choice([0, 0, 1, 2, 3])
@@ -162,7 +162,8 @@ class C07(Prop):
                     size_of = lambda i: ttab[i]["size"] if i < len(ttab) else 1
                     hp = rng.choice([0.0, 0.0, 0.2])
                     ops.append({"kind": 2, "enc": [rng.randrange(256), per, self._slots(rng, 1, hole_p=0.2)[0],
-                                                   [self._slots(rng, per, size_of, hole_p=hp) for _ in range(nth)]]})
+                                                   # (a thermostat that is not connected reports a block of undefined slots only)
+                                                   [self._slots(rng, per, size_of, hole_p=rng.choice([hp, hp, hp, 1.0])) for _ in range(nth)]]})
             if ops:
                 cases.append({"kind": "random", "product": product, "thermostats": nth, "ops": ops})
                 if rng.random() < 0.3:
